@@ -18,6 +18,15 @@ KINDS = {
     "noisy_x0": {"noisy": True, "x0": True},
     "noisy_nox0": {"noisy": True, "x0": False},
 }
+# escalation problems: used only when a schedule changed the INTERNAL signals of the run under test (GP
+# hyperparameters after a fit, hedge probabilities, poll bases) without changing the evaluated points of the
+# small default problem -- a leak of process history that needs a more sensitive problem to become observable
+ESC = {}
+for _d, _f in ((3, "rosen"), (4, "rosen"), (2, "rosen"), (2, "quartic"), (3, "quad")):
+    for _s in (1, 2, 3):
+        ESC[f"esc_{_f}{_d}_s{_s}"] = {"noisy": False, "x0": False, "D": _d, "fun": _f, "seed": _s, "budget": 60 + 15 * _d}
+ALLKINDS = dict(KINDS)
+ALLKINDS.update(ESC)
 
 
 def _replay(job):
@@ -26,13 +35,67 @@ def _replay(job):
     import logging
     logging.disable(logging.CRITICAL)
     from pybads.bads.bads import BADS
-    k = KINDS[kind]
-    D = 2
+    k = ALLKINDS[kind]
+    D = k.get("D", 2)
     log = []
+    sig = []               # internal signals of the run under test
+    active = [False]
+    import gpyreg
+    import pybads.bads.bads as _BB
+    import pybads.search.search_hedge as _SH
+    _fit0 = gpyreg.GP.fit
+
+    def _fit(self, *a, **kw):
+        if active[0]:
+            # inputs of the fit too: the starting hyperparameters are part of what the run computes from
+            try:
+                h0 = kw.get("hyp0", a[3] if len(a) > 3 else None)
+                sig.append(("fit_in", b"None" if h0 is None else np.asarray(h0, dtype=float).tobytes()))
+            except Exception:
+                sig.append(("fit_in", b"?"))
+        r = _fit0(self, *a, **kw)
+        if active[0]:
+            try:
+                sig.append(("fit", np.asarray(r[0], dtype=float).tobytes()))
+            except Exception:
+                sig.append(("fit", b"?"))
+        return r
+    gpyreg.GP.fit = _fit
+    _poll0 = _BB.poll_mads_2n
+
+    def _poll(*a, **kw):
+        B = _poll0(*a, **kw)
+        if active[0]:
+            try:
+                sig.append(("poll", np.asarray(B, dtype=float).tobytes()))
+            except Exception:
+                sig.append(("poll", b"?"))
+        return B
+    _BB.poll_mads_2n = _poll
+    _hedge0 = _SH.ESSearchHedge.__call__
+
+    def _hedge(self, *a, **kw):
+        r = _hedge0(self, *a, **kw)
+        if active[0]:
+            try:
+                sig.append(("hedge", np.asarray(getattr(self, "g", 0.0), dtype=float).tobytes(),
+                            np.asarray(getattr(self, "chosen_hedge", -1)).tobytes()))
+            except Exception:
+                sig.append(("hedge", b"?"))
+        return r
+    _SH.ESSearchHedge.__call__ = _hedge
 
     def target(x):
         x = np.asarray(x, dtype=float).ravel()
-        y = float(np.sum((x - 0.7) ** 2))
+        fun = k.get("fun", "sphere")
+        if fun == "rosen":
+            y = float(np.sum(100.0 * (x[1:] - x[:-1] ** 2) ** 2 + (1.0 - x[:-1]) ** 2))
+        elif fun == "quartic":
+            y = float(np.sum((x - 0.4) ** 4) + 0.5 * np.sum(x ** 2))
+        elif fun == "quad":
+            y = float(np.sum(np.arange(1, x.size + 1) * (x + 0.3) ** 2))
+        else:
+            y = float(np.sum((x - 0.7) ** 2))
         if k["noisy"]:
             y += 0.4 * float(np.random.normal())        # noise from NumPy's global generator
         log.append((x.tobytes(), y))
@@ -43,13 +106,17 @@ def _replay(job):
     def step(op):
         nonlocal T, F, res
         if op == "CT":
-            opts = {"display": "off", "random_seed": 100 + sd, "max_fun_evals": 70 if k["noisy"] else 45,
-                    "noise_final_samples": 3}
+            opts = {"display": "off", "random_seed": 100 + sd + k.get("seed", 0),
+                    "max_fun_evals": k.get("budget", 70 if k["noisy"] else 45), "noise_final_samples": 3}
             x0 = np.array([[1.5, -1.0]]) if k["x0"] else None
-            T = BADS(target, x0, np.array([[-5.0, -5.0]]), np.array([[5.0, 5.0]]), np.array([[-2.0, -2.0]]),
-                     np.array([[2.0, 2.0]]), options=opts)
+            T = BADS(target, x0, np.full((1, D), -5.0), np.full((1, D), 5.0), np.full((1, D), -2.0),
+                     np.full((1, D), 2.0), options=opts)
         elif op == "RT":
-            res = T.optimize()
+            active[0] = True
+            try:
+                res = T.optimize()
+            finally:
+                active[0] = False
         elif op == "FD":
             np.random.rand(7)
             np.random.normal(size=3)
@@ -82,7 +149,8 @@ def _replay(job):
             import traceback
             return job, {"error": f"{op}: {type(e).__name__}: {e}", "tb": traceback.format_exc()[-700:]}
     out = {"log": log, "x": np.asarray(res.x, float).tobytes(), "fval": float(res.fval), "fsd": float(res.fsd),
-           "fc": int(res.func_count), "msg": str(res.message), "x0": np.asarray(T.x0, float).tobytes()}
+           "fc": int(res.func_count), "msg": str(res.message), "x0": np.asarray(T.x0, float).tobytes(),
+           "sig": sig}
     return job, out
 
 
@@ -125,6 +193,7 @@ def run(verdict, tier):
             results.setdefault((job[0], job[1]), []).append(out)
     n_cmp = 0
     samples = []
+    suspects = []         # schedules that changed internal signals only
     for kind in KINDS:
         refs = results.get((kind, ref_s))
         if not refs:
@@ -150,8 +219,43 @@ def run(verdict, tier):
                     verdict.violation("C07.same_result", site="schedule", where=f"kind={kind} schedule={s}",
                                       detail={"field": fld})
                     break
+            if out["log"] == ref["log"] and out["x"] == ref["x"] and out.get("sig") != ref.get("sig"):
+                suspects.append((kind, s))
             if len(samples) < 3 and len(s) >= 4:
                 samples.append({"kind": kind, "schedule": list(s), "n_calls": len(out["log"]), "identical": out == ref})
+    # ---- escalation: history changed the run's internals but not (yet) its evaluated points ------------------
+    esc_info = {"suspect_schedules": len(suspects), "escalated": 0, "observable": 0}
+    if suspects:
+        seen_s = []
+        for kind, s in suspects:
+            if s not in seen_s:
+                seen_s.append(s)
+        seen_s = seen_s[:3]
+        ejobs = [(ek, s, sd) for ek in ESC for s in seen_s] + [(ek, ref_s, sd) for ek in ESC]
+        eres = {}
+        with ctx.Pool(os.cpu_count() or 4, maxtasksperchild=1) as pool:
+            for job, out in pool.imap_unordered(_replay, ejobs, chunksize=1):
+                if "error" not in out:
+                    eres[(job[0], job[1])] = out
+        for ek in ESC:
+            ref = eres.get((ek, ref_s))
+            if ref is None:
+                continue
+            for s in seen_s:
+                out = eres.get((ek, s))
+                if out is None:
+                    continue
+                esc_info["escalated"] += 1
+                if out["log"] != ref["log"] or out["x"] != ref["x"] or out["fval"] != ref["fval"]:
+                    esc_info["observable"] += 1
+                    first = next((i for i, (a, b) in enumerate(zip(out["log"], ref["log"])) if a != b),
+                                 min(len(out["log"]), len(ref["log"])))
+                    verdict.violation("C07.same_points_evaluated", site="schedule(escalated)",
+                                      where=f"kind={ek} schedule={s}",
+                                      detail={"first_difference_at_call": first,
+                                              "n_calls": [len(out["log"]), len(ref["log"])],
+                                              "note": "found after the schedule changed GP / hedge / poll internals of the default problem"})
+    verdict.coverage["repro_internal_signal_escalation"] = esc_info
     verdict.coverage.update({"repro_states": total_states, "repro_schedules_in_model": len(scheds),
                              "repro_schedules_replayed": len(pick), "repro_comparisons": n_cmp,
                              "repro_samples": samples, "repro_kinds": list(KINDS)})
